@@ -22,7 +22,7 @@ RULE = ('score dictionaries over n in 1..30 string-named features (n drawn from 
         'shuffled dict order; integer multipliers from families ties{0,1}/{-1,0,1}, small -6..6, wide -190..190, nonneg, neg, '
         'constant; pair dictionaries dense / dense+self / sparse / very sparse / empty / symmetric / one-orientation-only / '
         'with foreign (non-feature) keys, independently for redundancy and relation; strategy in median|mean|sum; '
-        'alpha, beta in {0,1/2,1,2} (floats or ints); value = multiplier * lcm(1..30) * 2^scale, scale in {0,3,-10,-41,-45}, '
+        'alpha, beta in {0,1/2,1,2} (floats or ints); value = multiplier * lcm(1..30) * 2^scale, scale in {0,3,-10,-41,-45} (12 %: unit 1 and pair scores +-(2^24 + d), |d| <= 3, doubled or not: large magnitudes, small differences), '
         'python ints or floats. Every case runs under PYTHONHASHSEED 0,1,2 (thorough: 0..4). Non-trivial = n >= 3 and (the '
         'greedy ranking differs from the relevance order, or some maximum is tied); distinct = distinct case content.')
 ASSUMPTIONS = ['float rounding is outside the theorems (scores are exact rationals in Lean): inputs are generated so that every float '
@@ -55,6 +55,8 @@ def draw(rng, fam):
         return rng.randint(0, 190)
     if fam == 'neg':
         return rng.randint(-190, 0)
+    if fam == 'big24':                      # magnitudes beyond 2^24 whose differences are tiny next to them (unit 1)
+        return rng.choice([1, 1, -1, 2]) * (2 ** 24 + rng.randint(-3, 3))
     return 3                                # constant
 
 
@@ -109,6 +111,18 @@ def gen_case(rng, thorough=False):
          'alpha': rng.choice(COEFS), 'beta': rng.choice(COEFS),
          'coef_int': rng.random() < 0.3, 'pyint': scale >= 0 and rng.random() < 0.4,
          'fam': f'rel:{vf_rel} pair:{vf_pair} red:{s_red} rln:{s_rln}'}
+    if rng.random() < 0.12:
+        # scores of large magnitude that differ by little: unit 1 instead of lcm(1..30) (an integer up to 2^26 and every sum of
+        # 30 of them is exact in binary64); the mean of k of them is exact only for k a power of two, hence at most 3 features there
+        c['unit'], c['scale'], c['pyint'] = 1, 0, rng.random() < 0.4
+        if c['strategy'] == 'mean' and n > 3:
+            n = 3
+            c['names'] = names = names[:3]
+        c['rel'] = [draw(rng, 'small') for _ in range(n)]
+        s_red = rng.choice(['dense', 'dense', 'sparse', 'one-orientation'])
+        c['red'] = gen_pairs(rng, n, s_red, 'big24', len(foreign))
+        c['rln'] = gen_pairs(rng, n, s_rln, rng.choice(['big24', 'small']), len(foreign))
+        c['fam'] = f'rel:small pair:big24 red:{s_red} rln:{s_rln}'
     if rng.random() < 0.25 and n >= 2:
         # call HISTORY: the function is first called on dictionaries with the same keys and other values (the values of this
         # case rotated), then the SAME dict objects are updated in place to this case's values and the function is called again;
@@ -225,7 +239,7 @@ class Server:
 # exact values, wire form, float-exactness re-check
 
 def exact(c, m):
-    return Fraction(m * UNIT) * (Fraction(2) ** c['scale'])
+    return Fraction(m * c.get('unit', UNIT)) * (Fraction(2) ** c['scale'])
 
 
 def load_line(c):
@@ -282,7 +296,7 @@ def float_exact(c, feats):
 def short(c):
     n = len(c['names'])
     s = (('[second call on the same dict objects, updated in place after an earlier call with rotated values] ' if c.get('prev') else '') +
-         f'n={n} strategy={c["strategy"]} alpha={c["alpha"]} beta={c["beta"]} unit=lcm(1..30)*2^{c["scale"]} '
+         f'n={n} strategy={c["strategy"]} alpha={c["alpha"]} beta={c["beta"]} unit={"lcm(1..30)" if c.get("unit", UNIT) == UNIT else c["unit"]}*2^{c["scale"]} '
          f'relevance={dict(zip(c["names"], c["rel"]))}')
     names = c['names'] + c.get('foreign', [])
     if len(c['red']) <= 12:
